@@ -302,7 +302,7 @@ func c13StrClass(s string) string {
 func init() {
 	core.Register(&core.Check{
 		ID:   "C13",
-		Rule: "every item of the value pool V u E, 15 elements without a usable value (Quantity without value / unit, primitives holding only an id or an extension, unparsable decimal text, unset enum code; relations only, no table) plus a finite string grammar (signed/unsigned numbers x fraction x exponent x whitespace; Boolean spellings; date/time texts incl. calendar-invalid ones; quantity texts) x 8 target types: convertsToT = toT().exists(), unconvertible -> empty, result type, idempotence, toString round trip, and agreement with the FHIRPath conversion table; non-trivial = distinct (item, target, outcome)",
+		Rule: "every item of the value pool V u E, 15 elements without a usable value (Quantity without value / unit, primitives holding only an id or an extension, unparsable decimal text, unset enum code; relations only, no table) plus a finite string grammar (signed/unsigned numbers x fraction x exponent x whitespace; Boolean spellings; date/time texts incl. calendar-invalid ones; quantity texts) x 8 target types: convertsToT = toT().exists(), unconvertible -> empty, result type, idempotence, toString round trip (for x of type T and for every conversion result), and agreement with the FHIRPath conversion table; non-trivial = distinct (item, target, outcome)",
 		Assumptions: []string{"conversion table and string formats transcribed from FHIRPath N1 section 5.5", "date/time strings with the literal-only trailing 'T' / leading 'T' are left undefined (totality only); a leading '@' is not part of the string format"},
 		Subs: func(tier string) []core.Sub {
 			items := c13Items()
@@ -380,6 +380,25 @@ func init() {
 						r.Eval()
 						if !(twice.OK() && len(twice.Coll) == 1 && lib.Show(twice.Coll[0]) == lib.Show(to.Coll[0])) {
 							r.Fail(key("idempotence", twice.Class()), core.W{"item": it.id, "once": to.String(), "twice": twice.String()})
+						}
+						// (5b) the result y of the conversion is a value of type T, so y.toString().toT() = y as well
+						if T != "String" && it.kind != "valueless" {
+							rt2 := lib.Run("%x.to"+T+"().toString().to"+T+"() = %x.to"+T+"()", nil, env())
+							r.Eval()
+							if !(rt2.OK() && len(rt2.Coll) == 1 && rt2.Coll[0] == system.Boolean(true)) {
+								str := lib.Run("%x.to"+T+"().toString()", nil, env())
+								d := rt2.Class()
+								if q, isQ := to.Coll[0].(system.Quantity); isQ {
+									// the unit the result carries is part of the discrepancy: unit '1' and the empty unit are recorded findings
+									parts := strings.SplitN(q.String(), " ", 2)
+									unit := ""
+									if len(parts) == 2 {
+										unit = parts[1]
+									}
+									d += "|unit=" + unit
+								}
+								r.Fail(key("result-string-round-trip", d), core.W{"item": it.id, "toT": to.String(), "toT.toString": str.String(), "toT.toString().toT()=toT": rt2.String()})
+							}
 						}
 						// (5) x already of type T: x.toString().toT() = x
 						if it.kind == T {
